@@ -1,14 +1,14 @@
 import os
 ID = 'C06'
-LEVEL = 'other'
+LEVEL = 'proof'
 CONTRACT_MODULES = ['contracts.evals']
-CONE = ['csep.core.poisson_evaluations._simulate_catalog']
+CONE = ['csep.core.poisson_evaluations._simulate_catalog', 'csep.core.poisson_evaluations._poisson_likelihood_test', 'csep.core.poisson_evaluations.conditional_likelihood_test', 'csep.core.poisson_evaluations.spatial_test', 'csep.core.poisson_evaluations.magnitude_test']
 ORACLE_MODULES = ['rt.oracles_eval', 'rt.oracles_contracts']
 BOUNDED = os.path.exists(os.path.join(os.path.dirname(__file__), '..', 'rt', 'bounded_C06.py'))
 FLOAT_MODEL = 'R for the placement clause (comparisons of the given floats are exact); the clause "last cumulative weight reaches 1" is about rounding and is bounded only'
 TRUSTED = ['numpy.searchsorted(side=right) partition point; numpy.add.at; ndarray.fill; lemma L1 (sum after add.at), L4 (count congruence)', 'pyvc engine, z3 5.1']
-ASSUMPTIONS = ['precondition of _simulate_catalog: weights non-decreasing, last weight >= 1, draws in [0,1) - that the callers establish it (cumsum normalised by its own last value) is checked by the bounded layer (incl. rate arrays whose float total rounds below 1, draws 0, next to every boundary, nextafter(1,0))', 'binary/Brier rejection loops, quantile score, seeding/determinism: bounded only']
-EXPLANATION = 'Poisson _simulate_catalog: sim[k] == #{t : F(k-1) <= u_t < F(k)} for every bin, zero-width bins receive nothing, total == num_events, the array passed in is reset and returned, no IndexError/AssertionError under the precondition'
+ASSUMPTIONS = ['binary / Brier simulators (rejection loop) and their tests, the catalog-based resampled / MLL tests: bounded stand-in only', 'the clause "cumulative weights end at 1" is proved in model R (cumsum(x)[-1] / cumsum(x)[-1] = 1); its float version (the quotient of a double by itself is exactly 1.0) is covered by the bounded layer on rate arrays whose total rounds below 1', 'numpy.random as an explicit generator state: seed(s) determines the state, every draw call advances it (assumed)']
+EXPLANATION = 'Poisson _simulate_catalog (injected or drawn numbers): sim[k] == #{t : F(k-1) <= u_t < F(k)}, zero-width bins empty, total == num_events, array reset; _poisson_likelihood_test establishes the simulator precondition (weights non-decreasing by lemma L4_sum_prefix_mono, last weight == 1, numbers in [0,1)), simulates the observed number of events per iteration (conditional form) or one Poisson(expected count) draw (L form), seeds the generator with `seed` before the first draw for EVERY seed including 0 (explicit RNG state), quantile == fraction of simulated statistics <= observed, in [0,1]'
 TECHNIQUE = 'contract on the real function (searchsorted + add.at), pointwise count equality + counting lemmas, z3; bounded run-time contracts for callers, seeds and boundaries'
-LEVEL_TEXT = 'other: the inverse-CDF placement of the Poisson simulator is proved for all weights/draws/lengths; the remaining clauses (callers, binary/Brier simulators, determinism, quantile) are bounded only'
+LEVEL_TEXT = 'proof (model R) for the Poisson tests: simulator, kernel (loop invariant), seeding; binary / Brier / catalog-based tests are bounded only'
 LEVEL_NOTE = 'callers bounded only; floats as reals'
